@@ -237,7 +237,7 @@ PROPS = {
 
 
 NOT_APPLICABLE = {
-    "C01": "whole-evaluator equivalence with the documented semantics: no per-function contract carries it (precedence and the arithmetic kernel are match arms, not functions), and a bounded run of the evaluator is out of reach of both verifiers; callee-level pieces are decided under C13",
+    "C01": "whole-program equivalence with the documented semantics (printed sequence and manner of ending for EVERY accepted program): no per-function contract carries it -- evaluation order, precedence and the arithmetic kernel are properties of the parser/evaluator recursion as a whole, and a bounded run of the evaluator is out of reach of both verifiers. Fragments of it ARE decided, under the properties whose checks own them: which evaluator arm runs for every operator x runtime types and its result type, exact and/or/not/condition truthiness (C06 unit eval_ops), that statically well-typed operand combinations are never rejected and inferred types are sound (C09 unit static_rules), find/replace/slice results (C13)",
     "C08": "about native stack bytes between guard points under two compiler profiles; neither verifier has a notion of frame sizes",
     "C16": "quantifies over schedules of two reader threads, a polling loop and a child process; Kani has no threads and Verus would need the code rewritten with permission types (a model)",
 }
